@@ -1,0 +1,14 @@
+//go:build verif
+
+package dissect
+
+// Hooks for the verification harness (build tag verif only): the unexported
+// case-folding helpers of case.go, so that they can be compared directly with
+// their model (they are otherwise reachable only through FindSubmatchIndex,
+// which never passes an empty needle).
+
+func VerifIndexIgnoreCase(s, loweredSubstr string) int { return indexIgnoreCase(s, loweredSubstr) }
+
+func VerifLowerASCII(s string) string { return lowerASCII(s) }
+
+func VerifLowerByte(c byte) byte { return lowerByte(c) }
